@@ -75,6 +75,7 @@ TTupleE(t)     == T("tuplee", <<t>>)        \* Tuple[t, ...]
 TDict(kt, vt)  == T("dict", <<kt, vt>>)
 TDC(fields)    == T("dc", fields)           \* dataclass: a sequence of <<name text, type, default value>>
 TReg(name)     == T("reg", <<name>>)        \* a registered type of jsonargparse/typing.py, see RegSer / AdaptReg
+TAny           == T("any", << >>)           \* typing.Any
 LeafC == {"str", "int", "float", "bool", "none"}
 
 UpperCase == <<"A","B","C","D","E","F","G","H","I","J","K","L","M","N","O","P","Q","R","S","T","U","V","W","X","Y","Z">>
@@ -175,18 +176,131 @@ ReadDoc(d) ==
                                IF \E i, j \in 1..Len(ks) : i # j /\ ks[i].k = "float" /\ ks[j].k = "float" THEN Unsure
                                ELSE Lift(ks \o xs, DictV(Strict([i \in 1..Len(d.v) |-> <<ks[i], xs[i]>>])))
   ELSE ReadScalar(d)
+(***************************************************************************)
+(* Round 4: the parser MODE (ArgumentParser(parser_mode=...), _core.py:243, *)
+(* :1574-1596).  The text of a dump is read back by loaders[mode]           *)
+(* (_loaders_dumpers.py:144-148, :356):                                    *)
+(*   "yaml"    yaml_load with the customised loader (ReadDoc above), also   *)
+(*             for JSON text;                                              *)
+(*   "json"    json.loads (json_load, :100-103): the exact inverse of       *)
+(*             json.dumps - strings, keys, Infinity / NaN included; a YAML  *)
+(*             text is not JSON;                                           *)
+(*   "jsonnet" jsonnet_load (:111-123): _jsonnet.evaluate_snippet RE-EMITS  *)
+(*             the document as JSON and the YAML loader reads THAT text;    *)
+(*             when the evaluation fails (RuntimeError: a YAML text,        *)
+(*             Infinity / NaN) the ORIGINAL text goes to the YAML loader.   *)
+(*             The re-emission (libjsonnet, unparse of a value): object     *)
+(*             keys sorted; strings escaped when below x20 or in x7f..x9f   *)
+(*             (so NEL and DEL travel escaped, LS / PS / UFFFE stay raw);   *)
+(*             every NUMBER goes through a double and is printed with %.0f  *)
+(*             when integral (3.0 -> 3, -0.0 -> -0, 1e22 -> 1 and 22 zeros, *)
+(*             2^53+1 -> 2^53) and with %.17g otherwise (trusted to denote  *)
+(*             the same double).                                           *)
+(* ParserMode is a definition that the bounded instances OVERRIDE in their  *)
+(* cfg (CONSTANT ParserMode <- ModeJson / ModeJsonnet).                     *)
+(***************************************************************************)
+ParserMode == "yaml"
+JInf  == <<"I","n","f","i","n","i","t","y">>
+JNInf == <<"-","I","n","f","i","n","i","t","y">>
+JNaN  == <<"N","a","N">>
+NullText == <<"n","u","l","l">>
+\* a NUMBER / constant token of a JSON text as json.loads reads it (parse_constant: Infinity, -Infinity, NaN are floats)
+JsonConst(text) ==
+  CASE text = NullText  -> NullV
+    [] text = TrueText  -> BoolV(TRUE)
+    [] text = FalseText -> BoolV(FALSE)
+    [] text = JInf      -> Flt(<<"i","n","f">>)
+    [] text = JNInf     -> Flt(<<"-","i","n","f">>)
+    [] text = JNaN      -> Flt(<<"n","a","n">>)
+    [] IntText(text)    -> IntV(text)
+    [] OTHER            -> Flt(text)                                            \* json.dumps wrote float.__repr__, float() reads it back
+ReadScalarJson(d) ==
+  CASE TokStyle(d) = "json"  -> Str(TokText(d))                                 \* json.loads undoes exactly the escapes of json.dumps
+    [] TokStyle(d) = "plain" -> JsonConst(TokText(d))
+    [] OTHER                 -> ErrV("not-json")
+\* repr(float) of an integral value: d+.0 below 1e16, mantissa e+XX from there on (every double >= 2^53 is integral)
+IntegralRepr(r) == Len(r) > 2 /\ SubSeq(r, Len(r) - 1, Len(r)) = <<".", "0">> /\ ~Has(r, "e")
+BigRepr(r)      == \E n \in 1..(Len(r) - 1) : r[n] = "e" /\ r[n + 1] = "+"
+NonFiniteJson(text) == text \in {JInf, JNInf, JNaN}
+Digits15(text) == Len(SelectSeq(text, LAMBDA ch : ch # "-")) <= 15                \* below 2^53: the double IS the int
+\* a number token after the re-emission by jsonnet, read by the YAML loader
+JsonnetConst(text) ==
+  CASE text \in {NullText, TrueText, FalseText} -> JsonConst(text)
+    [] IntText(text)    -> IF Digits15(text) THEN IntV(text) ELSE Unsure          \* the nearest double, printed with all its digits
+    [] text = <<"-","0",".","0">> -> IntV(<<"0">>)                                \* -0 is the int 0
+    [] IntegralRepr(text) -> LET n == SubSeq(text, 1, Len(text) - 2) IN IF Digits15(n) THEN IntV(n) ELSE Unsure   \* %.0f
+    [] BigRepr(text)    -> Unsure                                               \* an integer of 17+ digits: which one is the double's business
+    [] OTHER            -> Flt(text)                                            \* %.17g denotes the same double
+HasLSPS(t) == Has(t, "LS") \/ Has(t, "PS")
+ReadScalarJsonnet(d) ==
+  CASE TokStyle(d) = "plain" -> JsonnetConst(TokText(d))
+    [] TokStyle(d) = "json"  ->
+         LET t == TokText(d) IN
+         IF Has(t, "NPR") THEN Unsure                                           \* x7f..x9f are escaped and survive, UFFFE / UFFFF are not: the class is not split
+         ELSE IF ~HasLSPS(t) THEN Str(t)                                        \* NEL travels as \u0085
+         ELSE IF Has(t, "NEL") THEN Unsure
+         ELSE ReadJsonString(t)                                                 \* raw LS / PS are folded by the YAML scanner as before
+    [] OTHER -> ErrV("not-json")
+ReadKeyJsonnet(d) ==
+  LET t == TokText(d) IN
+  IF TokStyle(d) # "json" THEN ErrV("not-json")
+  ELSE IF Has(t, "NPR") THEN Unsure
+  ELSE IF HasLSPS(t) THEN ErrV("json-key")                                      \* a raw line break inside a simple key
+  ELSE Str(t)
+RECURSIVE DocNonFinite(_)
+DocNonFinite(d) ==
+  IF d.k = "list" THEN \E n \in 1..Len(d.v) : DocNonFinite(d.v[n])
+  ELSE IF d.k = "dict" THEN \E n \in 1..Len(d.v) : DocNonFinite(d.v[n][2])
+  ELSE d.k = "tok" /\ TokStyle(d) = "plain" /\ NonFiniteJson(TokText(d))
+RECURSIVE ReadDocM(_)
+ReadDocM(d) ==                                                                  \* json.loads / the YAML loader on jsonnet's re-emission
+  IF d.k = "list" THEN LET xs == Strict([n \in 1..Len(d.v) |-> ReadDocM(d.v[n])]) IN Lift(xs, ListV(xs))
+  ELSE IF d.k = "dict" THEN LET ks == Strict([n \in 1..Len(d.v) |-> IF ParserMode = "json" THEN ReadScalarJson(d.v[n][1]) ELSE ReadKeyJsonnet(d.v[n][1])])
+                                xs == Strict([n \in 1..Len(d.v) |-> ReadDocM(d.v[n][2])])
+                            IN Lift(ks \o xs, DictV(Strict([n \in 1..Len(d.v) |-> <<ks[n], xs[n]>>])))
+  ELSE IF ParserMode = "json" THEN ReadScalarJson(d) ELSE ReadScalarJsonnet(d)
+\* loaders[mode] on the text of a dump written with format fmt ("yaml" | "json")
+ReadText(fmt, d) ==
+  CASE ParserMode = "json"    -> IF fmt = "yaml" THEN ErrV("not-json") ELSE ReadDocM(d)
+    [] ParserMode = "jsonnet" -> IF fmt = "yaml" \/ DocNonFinite(d) THEN ReadDoc(d) ELSE ReadDocM(d)   \* :117-122 the fall-back reads the ORIGINAL text
+    [] OTHER                  -> ReadDoc(d)
+\* the format of dump(format="parser_mode") (_loaders_dumpers.py:282-283): what the nested dump of a dataclass value uses
+NestedFmt == IF ParserMode = "yaml" THEN "yaml" ELSE "json"
 \* the whole scalar layer: tree -> text -> tree.  ideal = TRUE: every scalar is read back as written.
-ThroughText(fmt, x, ideal) == IF ideal THEN x ELSE ReadDoc(WriteDoc(fmt, x))
+ThroughText(fmt, x, ideal) == IF ideal THEN x ELSE ReadText(fmt, WriteDoc(fmt, x))
 
 \* the hazard scalars of a tree for a format: the named deviation families of Scalars.tla that it contains
-RECURSIVE Hazards(_, _)
-Hazards(fmt, x) ==
-  IF x.k \in {"list", "tuple"} THEN UNION {Hazards(fmt, x.v[i]) : i \in 1..Len(x.v)}
-  ELSE IF x.k = "dict" THEN UNION {Hazards(fmt, x.v[i][1]) \cup Hazards(fmt, x.v[i][2])
+\* (HazardsY: the text is read by the YAML loader, parser_mode yaml)
+RECURSIVE HazardsY(_, _)
+HazardsY(fmt, x) ==
+  IF x.k \in {"list", "tuple"} THEN UNION {HazardsY(fmt, x.v[i]) : i \in 1..Len(x.v)}
+  ELSE IF x.k = "dict" THEN UNION {HazardsY(fmt, x.v[i][1]) \cup HazardsY(fmt, x.v[i][2])
                                    \cup (IF fmt # "yaml" /\ x.v[i][1].k = "str" THEN {JsonKeyDeviation(x.v[i][1].v)} \ {"none"} ELSE {}) : i \in 1..Len(x.v)}
   ELSE IF x.k = "str" THEN {IF fmt = "yaml" THEN Deviation(x.v) ELSE JsonStrDeviation(x.v)} \ {"none"}
   ELSE IF x.k = "float" /\ fmt # "yaml" THEN {JsonDeviation(x.v)} \ {"none"}
   ELSE {}
+\* parser_mode jsonnet, JSON text that jsonnet could evaluate: what the re-emission does to numbers, and the raw LS / PS
+\* that it leaves.  The two number families are SOFT: whether the round trip breaks depends on the type at that place
+\* (a float argument takes the int 3 back as 3.0; Union[int, float], Any, ... keep the int)
+RECURSIVE HazardsJsonnet(_)
+HazardsJsonnet(x) ==
+  IF x.k \in {"list", "tuple"} THEN UNION {HazardsJsonnet(x.v[i]) : i \in 1..Len(x.v)}
+  ELSE IF x.k = "dict" THEN UNION {HazardsJsonnet(x.v[i][1]) \cup HazardsJsonnet(x.v[i][2])
+                                   \cup (IF x.v[i][1].k = "str" /\ HasLSPS(x.v[i][1].v) THEN {"json-raw-line-break"} ELSE {}) : i \in 1..Len(x.v)}
+  ELSE IF x.k = "str" THEN (IF HasLSPS(x.v) /\ ~Has(x.v, "NEL") /\ ~Has(x.v, "NPR") /\ JsonStrDeviation(x.v) = "json-raw-line-break" THEN {"json-raw-line-break"} ELSE {})
+  ELSE IF x.k = "float" THEN (IF IntegralRepr(x.v) \/ BigRepr(x.v) THEN {"jsonnet-integral-float-read-as-int"} ELSE {})
+  ELSE IF x.k = "int" THEN (IF ~Digits15(x.v) THEN {"jsonnet-int-through-double"} ELSE {})
+  ELSE {}
+SoftFamilies == {"jsonnet-integral-float-read-as-int", "jsonnet-int-through-double"}
+RECURSIVE TreeNonFinite(_)
+TreeNonFinite(x) ==
+  IF x.k \in {"list", "tuple"} THEN \E i \in 1..Len(x.v) : TreeNonFinite(x.v[i])
+  ELSE IF x.k = "dict" THEN \E i \in 1..Len(x.v) : TreeNonFinite(x.v[i][2])
+  ELSE x.k = "float" /\ JsonDeviation(x.v) # "none"
+Hazards(fmt, x) ==
+  CASE ParserMode = "json"    -> {}                                             \* json.loads is the inverse of json.dumps
+    [] ParserMode = "jsonnet" -> IF fmt = "yaml" \/ TreeNonFinite(x) THEN HazardsY(fmt, x) ELSE HazardsJsonnet(x)
+    [] OTHER                  -> HazardsY(fmt, x)
 
 (***************************************************************************)
 (* Alg: sort_subtypes_for_union (_typehints.py:1477-1489) - a STABLE sort  *)
@@ -373,6 +487,40 @@ ValueFamilies(v) ==
   ELSE IF v.k = "reg" /\ RegName(v) = "Rdec" /\ ~DecExact(RegText(v)) THEN {"decimal-serialised-as-float"}
   ELSE {}
 
+\* load_value(text) of parse_value_or_config (simple_types=False: a scalar result leaves the str as it is) per parser mode
+\* (_loaders_dumpers.py:205-226).  "json": load_basic, then json.loads - a JSONDecodeError is swallowed by _check_type
+\* (_typehints.py:563-566) and the str stays; only null / an array / an object replace it.  "jsonnet": load_basic, then the
+\* text is EVALUATED as a jsonnet expression, and handed to the YAML loader when that fails: a text that could evaluate to
+\* null / an array / an object (it would have to contain a bracket, a brace, a call or the word null) is not decided.
+CouldBeJsonnetStructure(t) ==
+  \/ \E n \in 1..Len(t) : t[n] \in {"[", "{", "(", "\"", "'", "|", "$"}
+  \/ HasWord(t, NullText) \/ HasWord(t, <<"i","m","p","o","r","t">>) \/ HasWord(t, <<"s","e","l","f">>)
+LoadValueMode(t) ==
+  LET u == Strip(t) IN
+  CASE ParserMode = "json" ->
+         IF u = <<"-">> THEN Str(t)
+         ELSE IF u = NullText THEN NullV
+         ELSE IF u # << >> /\ u[1] \in {"[", "{"} THEN Unsure
+         ELSE Str(t)
+    [] ParserMode = "jsonnet" ->
+         IF u = NullText THEN NullV ELSE IF CouldBeJsonnetStructure(t) THEN Unsure ELSE LoadValue(t, FALSE)
+    [] OTHER -> LoadValue(t, FALSE)
+\* typing.Any (_typehints.py:761-769): a str goes through load_value(simple_types=True) and is REPLACED by what it loads
+\* as, unless that is a str again; anything else stays as it is (a value of a registered type / an Enum member is adapted
+\* as a value of its own type: unchanged)
+AdaptAny(x) ==
+  IF x.k # "str" THEN x
+  ELSE IF Strip(x.v) = << >> THEN x
+  ELSE CASE ParserMode = "yaml" -> (IF LoadBasic(x.v).k = "float" THEN Unsure                          \* load_basic's floats: which float is Python's business
+                                    ELSE LET y == YamlLoadText(x) IN IF y.k \in {"str", "error"} THEN x ELSE y)   \* _util.py:146-147 a str result leaves the ORIGINAL str; :766 a loader error is suppressed
+         [] ParserMode = "json" ->
+              LET b == LoadBasic(x.v)  u == Strip(x.v) IN
+              CASE b.k = "null" -> NullV
+                [] b.k = "bool" -> BoolV(u = TrueText)
+                [] b.k = "int"  -> IF IntText(u) THEN IntV(u) ELSE Unsure
+                [] b.k \in {"float", "unsure"} -> Unsure
+                [] OTHER -> IF u[1] \in Digits \cup {"-", "[", "{", "\"", "N", "I"} THEN Unsure ELSE x      \* JSONDecodeError: the str stays
+         [] OTHER -> Unsure
 RECURSIVE Adapt(_, _, _, _, _), LoadThenAdapt(_, _, _), UnionTrial(_, _, _, _, _, _, _), AdaptDC(_, _, _)
 Adapt(t, x, orig, sd, li) ==
   IF Bad(x) THEN x
@@ -411,6 +559,7 @@ Adapt(t, x, orig, sd, li) ==
               IN Lift(ks \o ys, DictV(Strict([i \in 1..Len(x.v) |-> <<ks[i], ys[i]>>])))
     [] t.c = "dc" -> AdaptDC(t, x, sd \/ li)                                     \* :1032-1050
     [] t.c = "reg" -> AdaptReg(t.p[1], x)                                        \* :800-805
+    [] t.c = "any" -> AdaptAny(x)                                                \* :761-769
     [] t.c = "restr" ->                                                         \* restricted number / string types (typing.py:106-247, registered at :356):
          LET y == AdaptLeaf(T(t.p[2], << >>), x) IN IF IsErr(y) THEN y ELSE Unsure   \* the base type must fit; the restriction itself is C20's business
     [] OTHER -> Unsure
@@ -434,16 +583,23 @@ AdaptDC(t, x, fill) ==
   ELSE LET key(f) == IF x.k = "dict" THEN Str(t.p[f][1]) ELSE t.p[f][1]
            given  == SelectSeq(Strict([f \in 1..Len(t.p) |-> f]), LAMBDA f : HasKey(x, key(f)) \/ fill)
            ys     == Strict([n \in 1..Len(given) |-> IF ~HasKey(x, key(given[n])) THEN t.p[given[n]][3]
+                                                  \* round 4: a field that is itself a dataclass is a nested GROUP of the same nested parser
+                                                  \* (add_dataclass_arguments, _signatures.py): its dict is spread over the dotted arguments
+                                                  \* i.a, i.s ...; None for the group is not decided here (C03: a bare AttributeError)
+                                                  ELSE IF t.p[given[n]][2].c = "dc"
+                                                       THEN (IF GetKey(x, key(given[n])).k \in {"dict", "ns"} THEN AdaptDC(t.p[given[n]][2], GetKey(x, key(given[n])), fill) ELSE Unsure)
                                                   ELSE IF GetKey(x, key(given[n])).k = "null" THEN NullV                  \* _core.py:1410-1411: None is taken as it is
                                                   ELSE LoadThenAdapt(t.p[given[n]][2], GetKey(x, key(given[n])), fill)])
+           \* a nested group none of whose arguments got a value does not exist in the Namespace
+           kept   == SelectSeq(Strict([n \in 1..Len(given) |-> n]), LAMBDA n : ~(t.p[given[n]][2].c = "dc" /\ ys[n].k = "ns" /\ ys[n].v = << >>))
        IN IF \E i \in 1..Len(x.v) : ~\E f \in 1..Len(t.p) : x.v[i][1] = key(f) THEN ErrV("unknown-key")
-          ELSE Lift(ys, NSV(Strict([n \in 1..Len(given) |-> <<t.p[given[n]][1], ys[n]>>])))
+          ELSE Lift(ys, NSV(Strict([n \in 1..Len(kept) |-> <<t.p[given[kept[n]]][1], ys[kept[n]]>>])))
 
 \* ActionTypeHint._check_type (:554-611): parse_value_or_config on a str (_util.py:144-147: anything but a str replaces
 \* it: null, a list, a dict), adapt, and on failure once more with the original str.
 LoadThenAdapt(t, x, sd) ==
   IF Bad(x) THEN x
-  ELSE LET lv == IF x.k = "str" /\ Strip(x.v) # << >> THEN LoadValue(x.v, FALSE) ELSE x
+  ELSE LET lv == IF x.k = "str" /\ Strip(x.v) # << >> THEN LoadValueMode(x.v) ELSE x
            v0 == IF x.k # "str" \/ lv.k = "str" THEN x ELSE IF lv.k = "null" THEN NullV ELSE Unsure
            r1 == Adapt(t, v0, x, sd, FALSE)
        IN IF IsUnsure(v0) \/ IsUnsure(r1) THEN Unsure
@@ -484,6 +640,7 @@ SerOk(t, v) ==
     [] t.c = "dc"    -> v.k = "ns"
     [] t.c = "restr" -> v.k = t.p[2]                                            \* serializer = the base type (typing.py:356)
     [] t.c = "reg"   -> RegSerOk(t.p[1], v)                                     \* :802-803 str never raises, the other serializers do
+    [] t.c = "any"   -> TRUE
     [] OTHER -> FALSE
 Ser(t, v, o) ==
   CASE t.c \in {"str", "int", "bool", "none", "literal"} -> v
@@ -503,15 +660,19 @@ Ser(t, v, o) ==
          IN Lift(ys, DictV(Strict([i \in 1..Len(v.v) |-> <<ks[i], ys[i]>>])))
     [] t.c = "restr" -> v                                                       \* int(v) / float(v) / str(v) of a value of that base type
     [] t.c = "reg"   -> RegSer(t.p[1], v)                                       \* :802-803  registered_type.serializer(val)
+    [] t.c = "any"   -> IF v.k = "enum" THEN Str(v.v) ELSE IF v.k = "reg" THEN RegSer(RegName(v), v) ELSE v   \* :763-765 by the value's own type
     [] t.c = "dc"    ->                                                         \* :1041  load_value(parser.dump(val, **dump_kwargs))
          LET inner == DumpFields(t.p, v, o) IN
-         IF Bad(inner) THEN inner ELSE ThroughText("yaml", inner, o.ideal)      \* a NESTED yaml round trip, whatever the outer format
+         IF Bad(inner) THEN inner ELSE ThroughText(NestedFmt, inner, o.ideal)   \* a NESTED round trip in the parser's mode (yaml: yaml text), whatever the outer format
     [] OTHER -> Unsure
 \* the dict a (nested) parser dumps for a dataclass value: one entry per field, None entries dropped under skip_none
 \* (_core.py:808-833)
 DumpFields(fields, v, o) ==
   LET keep == SelectSeq(Strict([f \in 1..Len(fields) |-> f]), LAMBDA f : HasKey(v, fields[f][1]) /\ ~(o.skipnone /\ Field(v, fields[f][1]).k = "null"))
-      ys   == Strict([n \in 1..Len(keep) |-> LET val == Field(v, fields[keep[n]][1]) IN IF val.k = "null" THEN val ELSE Ser(fields[keep[n]][2], val, o)])
+      ys   == Strict([n \in 1..Len(keep) |-> LET val == Field(v, fields[keep[n]][1]) IN
+                                               IF val.k = "null" THEN val
+                                               ELSE IF fields[keep[n]][2].c = "dc" /\ val.k = "ns" THEN DumpFields(fields[keep[n]][2].p, val, o)   \* round 4: a nested group of the SAME nested parser: no further text trip
+                                               ELSE Ser(fields[keep[n]][2], val, o)])
   IN Lift(ys, DictV(Strict([n \in 1..Len(keep) |-> <<Str(fields[keep[n]][1]), ys[n]>>])))
 
 Opts(ideal, skipnone) == [ideal |-> ideal, skipnone |-> skipnone]
@@ -540,7 +701,7 @@ NestedHazards(t, v) ==
          [] t.c \in {"list", "tuplee", "set"} -> UNION {NestedHazards(t.p[1], v.v[i]) : i \in 1..Len(v.v)}
          [] t.c = "tuple" -> UNION {NestedHazards(t.p[i], v.v[i]) : i \in 1..Len(v.v)}
          [] t.c = "dict"  -> UNION {NestedHazards(t.p[2], v.v[i][2]) : i \in 1..Len(v.v)}
-         [] t.c = "dc"    -> LET inner == DumpFields(t.p, v, Opts(TRUE, FALSE)) IN IF Bad(inner) THEN {} ELSE Hazards("yaml", inner)
+         [] t.c = "dc"    -> LET inner == DumpFields(t.p, v, Opts(TRUE, FALSE)) IN IF Bad(inner) THEN {} ELSE Hazards(NestedFmt, inner)
          [] OTHER -> {}
 \* --print_config=comments sends the yaml text through a SECOND yaml library (ruyaml, YAML 1.2; _formatters.py:187-191,
 \* add_yaml_comments) which re-decides the quoting of every scalar with its own resolvers: the strings whose reading
@@ -566,6 +727,47 @@ LeafHazards(t, v, fmt) ==
   LET s == SerializeLeaf(t, v, TRUE) IN
   (IF Bad(s) THEN {} ELSE Hazards(fmt, s)) \cup NestedHazards(t, v) \cup ValueFamilies(v)
   \cup (IF ~Bad(s) /\ HasUnserialised(s) THEN {"union-enum-member-serialises-anything"} ELSE {})
+(***************************************************************************)
+(* Round 4: MULTI-FILE save (ArgumentParser.save, multifile=True is the     *)
+(* default, _core.py:927-968).  A Dict value that was loaded from its own   *)
+(* file carries "__path__" (_util.py:148-149); save_paths writes it to a    *)
+(* file of that name next to the main file and puts the file NAME into the  *)
+(* main file.  The sub-file receives dump_using_format(strip_meta(val))     *)
+(* (:946-953): the value AS STORED - ActionTypeHint.serialize is NOT        *)
+(* applied (that happens afterwards, in self.dump of the main file, where   *)
+(* the entry is a file name already).  parse_path of the main file loads    *)
+(* the sub-file and adapts its content.                                    *)
+(***************************************************************************)
+RECURSIVE RawTree(_), HasSetVal(_), HasNsVal(_)
+HasNsVal(v) == IF v.k = "ns" THEN TRUE
+               ELSE IF v.k \in SeqKinds THEN \E n \in 1..Len(v.v) : HasNsVal(v.v[n])
+               ELSE IF v.k = "dict" THEN \E n \in 1..Len(v.v) : HasNsVal(v.v[n][2])
+               ELSE FALSE
+\* can the dumper of format fmt write the raw value?  yaml knows Namespace (_namespace.py:362 registers a representer with
+\* SafeDumper), json.dumps does not (TypeError); neither knows Enum members or values of registered types
+RawUnwritable(fmt, v) == HasUnserialised(RawTree(v)) \/ (fmt # "yaml" /\ HasNsVal(v))
+RawTree(v) ==                                                                   \* what the dumper is handed: python objects
+  IF v.k \in {"list", "tuple"} THEN [k |-> v.k, v |-> Strict([n \in 1..Len(v.v) |-> RawTree(v.v[n])])]
+  ELSE IF v.k = "dict" THEN DictV(Strict([n \in 1..Len(v.v) |-> <<v.v[n][1], RawTree(v.v[n][2])>>]))
+  ELSE IF v.k = "ns" THEN DictV(Strict([n \in 1..Len(v.v) |-> <<Str(v.v[n][1]), RawTree(v.v[n][2])>>]))   \* yaml writes a Namespace as a mapping
+  ELSE v                                                                        \* Enum members, values of registered types, sets stay what they are
+HasSetVal(v) == IF v.k = "set" THEN TRUE
+                ELSE IF v.k \in {"list", "tuple"} THEN \E n \in 1..Len(v.v) : HasSetVal(v.v[n])
+                ELSE IF v.k \in {"dict", "ns"} THEN \E n \in 1..Len(v.v) : HasSetVal(v.v[n][2])
+                ELSE FALSE
+ReparseMultiLeaf(t, v, fmt, ideal) ==
+  IF v.k # "dict" \/ HasSetVal(v) THEN Unsure                                   \* only a dict carries __path__; a set is written with the tag !!set: not modelled
+  ELSE LET raw == RawTree(v) IN
+       IF RawUnwritable(fmt, v) THEN ErrV("represent")                          \* yaml: RepresenterError, json: TypeError - save raises
+       ELSE LET y == ThroughText(fmt, raw, ideal) IN IF Bad(y) THEN y ELSE Accept(t, y)
+\* named deviation: the sub-file is written without serialising, so a value that holds an Enum member / a value of a
+\* registered type cannot be saved at all
+MultiHazards(t, v, fmt) ==
+  IF v.k # "dict" \/ HasSetVal(v) THEN {}
+  ELSE LET raw == RawTree(v) IN
+       IF RawUnwritable(fmt, v) THEN {"multifile-subconfig-not-serialised"} ELSE Hazards(fmt, raw)
+MultiRoundTripModuloKnown(t, v, fmt) ==
+  LET r == ReparseMultiLeaf(t, v, fmt, FALSE) IN Same(r, v) \/ IsUnsure(r) \/ MultiHazards(t, v, fmt) # {}
 RoundTripModuloKnown(t, v, fmt) == RoundTrip(t, v, fmt) \/ IsUnsure(AlgRT(t, v, fmt)) \/ LeafHazards(t, v, fmt) # {}
 HazardsAreReal(t, v, fmt)       == (LeafHazards(t, v, fmt) # {} /\ ~IsUnsure(AlgRT(t, v, fmt))) => ~RoundTrip(t, v, fmt)
 
